@@ -664,16 +664,22 @@ fn gen(rng: &mut Rng, tier: u32) -> String {
     let mut recv = 1_700_000_000_000_000u64;
     let mut ts = 10_000u32;
     let mut msgs = vec![];
-    let necu = 1 + rng.below(2) as u8;
-    let distinct = rng.chance(3);
+    // directed: a time-sorted session over two ECUs that booted at very different times, with index lookups on a filtered
+    // stream that mixes their lifecycles
+    let directed = n >= 4 && rng.chance(8);
+    let necu = if directed { 2 } else { 1 + rng.below(2) as u8 };
+    let distinct = directed || rng.chance(3);
+    // ECUs that booted at very different times: equal reception times, lifecycle starts (and timestamps) far apart
+    let ts_off: Vec<u32> = (0..necu).map(|e| if e > 0 && (directed || rng.chance(2)) { [300_000u32, 6_000_000][rng.below(2) as usize] } else { 0 }).collect();
     for _ in 0..n {
         let step = if distinct { [1000u64, 20_000, 500_000][rng.below(3) as usize] } else { [0u64, 0, 1000, 20_000, 500_000][rng.below(5) as usize] };
         recv += step;
         ts += (step / 100) as u32;
+        let ecu = rng.below(necu as u64) as u8;
         msgs.push(Msg {
-            ecu: rng.below(necu as u64) as u8,
+            ecu,
             recv,
-            ts,
+            ts: ts + ts_off[ecu as usize],
             apid: rng.pick(&["APP1", "APP2", "SYS"][..]).to_string(),
             ctid: rng.pick(&["CTX1", "CTX2"][..]).to_string(),
             text: rng.pick(&["boot ok", "error x", "status ok", "x", "err 42", "all fine"][..]).to_string(),
@@ -684,9 +690,10 @@ fn gen(rng: &mut Rng, tier: u32) -> String {
     let times: Vec<u64> = msgs.iter().zip(starts.iter()).map(|(m, s)| s + m.ts as u64 * 100).collect();
     let strict = times.windows(2).all(|w| w[0] < w[1]);
     let wild = rng.chance(6);
+    let wild = wild && !directed;
     let open_cmd = if wild {
         *rng.pick(&["open1p", "open1p", "open1p", "opennc", "openxc"])
-    } else if strict && rng.chance(2) {
+    } else if strict && (directed || rng.chance(2)) {
         "opensort"
     } else {
         "open"
@@ -697,9 +704,21 @@ fn gen(rng: &mut Rng, tier: u32) -> String {
     let mut announced = 0u64;
     let ncmd = 2 + rng.below(if tier > 0 { 14 } else { 9 });
     let mut open = false;
-    if !rng.chance(6) {
+    if directed || !rng.chance(6) {
         open = true;
         cmds.push(open_cmd.to_string());
+    }
+    if directed {
+        let fs = match rng.below(3) {
+            0 => format!("a{}", rng.pick(&["APP1", "APP2", "SYS"][..])),
+            1 => format!("!c{}", rng.pick(&["CTX1", "CTX2"][..])),
+            _ => format!("!t{}", hex(b"zzz")),
+        };
+        cmds.push(format!("stream {} 0 {}", fs, n + 3));
+        announced += 1;
+        for _ in 0..3 {
+            cmds.push(format!("bsi 1 {}", rng.below(n as u64 + 1)));
+        }
     }
     for _ in 0..ncmd {
         let r = rng.below(100);
